@@ -16,7 +16,8 @@ from symex import Adt, Sym, conj, disj, neg
 def build(pid, P, R, tier, log_dir):
     import mirx_props as mp
     if pid == "C02":
-        return [mp.XOb("X-accept_implies_lower_assign", "", "", lambda: run_accept_implies_lower(P, R, mp, log_dir))]
+        return [mp.XOb("X-accept_implies_lower_assign", "", "", lambda: run_accept_implies_lower(P, R, mp, log_dir)),
+                mp.XOb("X-lower_total", "", "", lambda: run_lower_total(P, R, mp, log_dir))]
     if pid != "C03":
         return []
     return [mp.XOb("X-check_assign", "", "", lambda: run_check_assign(P, R, mp, log_dir)),
@@ -999,4 +1000,117 @@ def run_accept_implies_lower(P, R, mp, log_dir):
         r.update(status="violated", replay=rp, counterexample={"path": r["deviating_path"], "native": text})
     else:
         r.update(status="inconclusive", reason=f"a rule body deviates ({r['deviating_path'][:200]}) but every accepted program is generated")
+    return r
+
+
+# ---- C02: every statement kind the grammar has can be lowered at all ---------------------------------------------------------------------------
+LOWER_TOTAL_PROGRAMS = {
+    "TupleAssign": ("tuple_assign_swap", "def f(xs: List[int]) -> int:\n    xs[0], xs[1] = (xs[1], xs[0])\n    return xs[0]\n"),
+    "ChainedAssignment": ("chained_assignment", "def f() -> int:\n    a = b = 1\n    return a\n"),
+    "TupleUnpack": ("tuple_unpack", "def f(t: (int, int)) -> int:\n    a, b = t\n    return a\n"),
+    "CompoundAssignment": ("compound_assignment", "def f(n: int) -> int:\n    mut k = n\n    k += 1\n    return k\n"),
+    "IndexAssignment": ("index_assignment", "def f(xs: List[int]) -> int:\n    xs[0] = 1\n    return xs[0]\n"),
+    "FieldAssignment": ("field_assignment", "model M:\n    x: int\n\ndef f(mut m: M) -> int:\n    m.x = 1\n    return m.x\n"),
+    "For": ("for_loop", "def f(xs: List[int]) -> int:\n    for x in xs:\n        pass\n    return 0\n"),
+    "While": ("while_loop", "def f(n: int) -> int:\n    while n > 0:\n        break\n    return 0\n"),
+}
+
+
+def run_lower_total(P, R, mp, log_dir):
+    import stmt_props
+    import tc_props
+    t0 = time.time()
+    f = tc_props.find_fn(P, "lower_stmt") if any(n.endswith("::lower_stmt") for n in P.fns) else tc_props.find_fn(P, "lower_statement")
+    svars = mp.variants(R, "incan_syntax::ast::Statement")
+    refused, per_arm, encoded, problems = [], {}, set(), []
+    for k, arm in enumerate(svars):
+        ta = time.time()
+        ex = mirx.make_executor(P, R, max_paths=400000)
+        ex.opaque_calls = mirx.slice_opaque
+        ex.model_sequences = True
+        ex.seq_bound = 1
+        ex.recursion_bound = 0
+        ex.tolerate_unsupported = True
+        ex.max_steps = 4000
+        ex.summarize = tc_props.SUMMARIZE + [r"::lower_\w+$", r"HashMap::<.*>::\w+(::<.*>)?$", r"HashSet::<.*>::\w+(::<.*>)?$", r"IrSpan as .*Default>::default$",
+                                             r"fmt::rt::Argument", r"Arguments::<.*>::new", r"must_use", r"::lookup_var$", r"Clone>::clone$"]
+        selfv = ex.sym_value("AstLowering", "self")
+        stmt = ex.sym_value("incan_syntax::ast::Statement", "stmt")
+        st0 = symex.State()
+        st0.facts[stmt.tag().term] = ("eq", k)
+        st0.pc.append(f"(= {stmt.tag().term} {k})")
+        if arm == "ChainedAssignment":
+            ex.seq_bound = 2
+            st0.facts["len:stmt.ChainedAssignment.0.1"] = 2        # `a = b = v`: two targets (the loop body is the same for each further one)
+            ex.loop_bound = 4
+        try:
+            entry = stmt_props.arm_entry(f, arm)
+        except Inconclusive:
+            entry = "bb0"
+        ex.call_stack = [f.name]
+        try:
+            outs = ex._run(f, [selfv, stmt], {}, 0, st0, entry=entry, preset={})
+        except Exception as x:      # an arm the model cannot execute is not judged here (its own obligations cover it or it is outside)
+            problems.append(f"{arm}: {str(x)[:80]}")
+            continue
+        finally:
+            ex.call_stack = []
+        encoded |= set(ex.encoded)
+        oks = errs = 0
+        own_errs = []
+        for o in outs:
+            if o.kind != "return":
+                continue
+            val = mirx.show(o.value, ex, o.state)
+            if val.startswith("Result::Ok"):
+                oks += 1
+            elif val.startswith("Result::Err"):
+                errs += 1
+                if "LoweringError(" in val or "message:" in val:
+                    own_errs.append(val[:140])
+        per_arm[arm] = {"ok_paths": oks, "err_paths": errs, "s": round(time.time() - ta, 1)}
+        if oks == 0 and errs > 0:
+            refused.append((arm, own_errs[0] if own_errs else "every path returns an error"))
+    r = {"id": "X-lower_total", "engine": "E2-X mirsmt",
+         "statement": "every statement kind of the grammar has a lowering: for each variant of ast::Statement some path of AstLowering's statement arm returns Ok when the "
+                      "lowering of its parts succeeds - a kind that is refused unconditionally is a program the checker accepts and code generation cannot build",
+         "bound": "each arm of the statement lowering with the lowering of sub-terms, scope and registry lookups as arbitrary (succeeding or failing) answers; lists of 0..=1",
+         "functions_encoded": sorted(x + " (MIR)" for x in encoded), "paths": sum(v["ok_paths"] + v["err_paths"] for v in per_arm.values()),
+         "compositions": per_arm, "not_executed": problems[:6]}
+    r["wall_s"] = round(time.time() - t0, 2)
+    if not per_arm:
+        r.update(status="inconclusive", reason=f"no arm executed: {problems[:2]}")
+        return r
+    r["vacuity_ok"] = True
+    if not refused:
+        r.update(status="held", solver=f"{len(per_arm)} statement kinds, each with a successful lowering path")
+        return r
+    r["deviating_path"] = "; ".join(f"Statement::{a}: {w}" for a, w in refused)[:500]
+    import kani
+    texts, broken = [], False
+    for arm, _w in refused:
+        if arm not in LOWER_TOTAL_PROGRAMS:
+            continue
+        name, src = LOWER_TOTAL_PROGRAMS[arm]
+        res, path = tc_props.native_typecheck(src, log_dir, f"c02total_{name}")
+        for prof, line in res.items():
+            if not line.startswith("ACCEPTED"):
+                continue
+            binp = kani.build_replay(prof, True, log_dir)
+            rcode, out, _, to = common.run([binp, "emitrust", path], timeout=120)
+            if "RUST-END" not in out:
+                broken = True
+                texts.append(f"[{prof}] {name}: `incan --check` accepts, code generation fails: {out.strip()[:110]}")
+    text = "; ".join(texts[:6]) or "the programs of the refused kinds are either rejected by the checker or generated"
+    r["native"] = text
+    kf = [k_ for k_ in common.load_known_findings().get("findings", []) if k_.get("property") == "C02" and k_.get("obligation") == r["id"]]
+    if broken and kf and all(any(w in t for w in kf[0].get("witness_names", [])) for t in texts):
+        r.update(status="known-finding", finding=f"obligation={r['id']} {kf[0].get('what', '')[:300]} ({text[:160]})")
+    elif broken:
+        os.makedirs(os.path.join(common.REPLAYS_DIR, "MIRX"), exist_ok=True)
+        rp = os.path.join(common.REPLAYS_DIR, "MIRX", r["id"] + ".replay")
+        open(rp, "w").write(f"mirx c02 lower_total\n# {r['deviating_path']}\n# {text}\n")
+        r.update(status="violated", replay=rp, counterexample={"path": r["deviating_path"], "native": text})
+    else:
+        r.update(status="inconclusive", reason=f"a statement kind is refused on every path ({r['deviating_path'][:200]}) but no accepted program shows it")
     return r
